@@ -1,0 +1,50 @@
+//go:build verif
+
+// Contracts for gvc (/verif). Comment-only: this file adds no declarations.
+
+package ui
+
+// C33: styled text stays normalised. Deductive part: the constructors and the
+// empty-text cases ("an empty Text is nil", "no empty segment is introduced")
+// of the operations that build a Text directly. Normal form and content laws of
+// the operations on arbitrary texts are checked by the bounded stand-in c33-text.
+
+//@ func Segment.Clone
+//@   trusted
+//@   pure
+//@   ensures result != nil && result.Text === s.Text
+
+//@ func TextFromSegment
+//@   props C33
+//@   pure
+//@   requires seg != nil
+//@   ensures (len(result) == 0) == (len(seg.Text) == 0)
+//@   ensures len(seg.Text) == 0 ==> ref(result) == 0
+//@   ensures len(seg.Text) > 0 ==> len(result) == 1 && result[0] == seg
+
+//@ func Text.Clone
+//@   props C33
+//@   pure
+//@   requires forall k int :: 0 <= k && k < len(t) ==> t[k] != nil
+//@   ensures len(result) == len(t)
+//@   ensures len(t) == 0 ==> ref(result) == 0
+
+//@ func StyleSegment
+//@   trusted
+//@   pure
+//@   ensures result != nil && result.Text === seg.Text
+
+//@ func StyleText
+//@   props C33
+//@   pure
+//@   requires forall k int :: 0 <= k && k < len(t) ==> t[k] != nil
+//@   ensures len(result) == len(t)
+//@   ensures len(t) == 0 ==> ref(result) == 0
+//   restyling keeps every segment's text (content is unchanged)
+//@   loop 1 invariant len(newt) == len(t) && (forall k int :: 0 <= k && k < range_pos ==> newt[k] != nil && newt[k].Text === t[k].Text)
+//@   ensures forall k int :: 0 <= k && k < len(t) ==> result[k] != nil && result[k].Text === t[k].Text
+
+//@ func T
+//@   props C33
+//@   ensures len(s) == 0 ==> ref(result) == 0
+//@   ensures len(s) > 0 ==> len(result) == 1 && result[0] != nil && result[0].Text === s
